@@ -29,6 +29,9 @@ func bigXZCases(seed uint64) []xzCase {
 		{ID: "big3", LC: 4, LP: 0, PB: 4, DictCap: 4096, BufSize: 273, Check: "none", Matcher: 0, Family: "random", N: 300000, Part: "random", Seed: seed + 4},
 		// far match distances (8 MiB): the distance coder's high slots on the writer side
 		{ID: "big5", LC: 3, LP: 0, PB: 2, DictCap: 16 << 20, Check: "crc32", Matcher: 0, Family: "xgapx", N: 12 << 20, Part: "one", Seed: seed + 6},
+		// >= 64 KiB incompressible, then > 2 MiB of zeros, in one Write call
+		{ID: "big6", LC: 3, LP: 0, PB: 2, DictCap: 1 << 20, Check: "crc64", Matcher: 0, Family: "randzeros", N: 2<<20 + 400123, Part: "one", Seed: seed + 7},
+		{ID: "big7", LC: 0, LP: 0, PB: 0, DictCap: 65536, BufSize: 273, Check: "crc32", Matcher: 0, Family: "randzeros", N: 3<<20 + 7, Part: "one", Seed: seed + 8},
 		{ID: "big4", LC: 3, LP: 0, PB: 2, DictCap: 0, Check: "default", Matcher: 1, Family: "text", N: 300000, Part: "one", Seed: seed + 5},
 	}
 }
